@@ -359,7 +359,7 @@ func (l *commitLog) NewestOffset() int64 {
 func (l *commitLog) OldestOffset() int64 {
 	l.mu.RLock()
 	defer l.mu.RUnlock()
-	return l.segments[0].FirstOffset()
+	return l.readableSegments()[0].FirstOffset()
 }
 
 // EarliestOffsetAfterTimestamp returns the earliest offset whose timestamp is
@@ -370,7 +370,7 @@ func (l *commitLog) EarliestOffsetAfterTimestamp(timestamp int64) (int64, error)
 
 	// The active segment is empty right after it has been rolled. It has no
 	// timestamps to search, so leave it out unless it is the only segment.
-	segments := l.segments
+	segments := l.readableSegments()
 	if n := len(segments); n > 1 && segments[n-1].IsEmpty() {
 		segments = segments[:n-1]
 	}
@@ -430,7 +430,7 @@ func (l *commitLog) LatestOffsetBeforeTimestamp(timestamp int64) (int64, error) 
 
 	// The active segment is empty right after it has been rolled. It has no
 	// timestamps to search, so leave it out unless it is the only segment.
-	segments := l.segments
+	segments := l.readableSegments()
 	if n := len(segments); n > 1 && segments[n-1].IsEmpty() {
 		segments = segments[:n-1]
 	}
@@ -722,7 +722,21 @@ func (l *commitLog) Truncate(offset int64) error {
 func (l *commitLog) Segments() []*segment {
 	l.mu.RLock()
 	defer l.mu.RUnlock()
-	return l.segments
+	return l.readableSegments()
+}
+
+// readableSegments returns the segments of the log without the oldest ones
+// which a retention pass has marked as deleted. Those segments are closed or
+// about to be, but they stay in the log's segments until the pass has removed
+// all of their files such that a pass which failed part of the way is retried
+// by the next one. Until then, the log begins at the first segment which is
+// not marked. This must be called within the log mutex.
+func (l *commitLog) readableSegments() []*segment {
+	segments := l.segments
+	for len(segments) > 1 && segments[0].IsDeleted() {
+		segments = segments[1:]
+	}
+	return segments
 }
 
 // NotifyLEO registers and returns a channel which is closed when messages past
